@@ -582,6 +582,17 @@ func runPlanS(def *PropDef, p *Plan, scratch string) *RunResult {
 		}
 	}
 	res.Digest = r.digest
+	tr := trace
+	if len(tr) > 60 {
+		tr = tr[:60]
+	}
+	var hl []string
+	for ti := range sr.hist {
+		for _, e := range sr.hist[ti] {
+			hl = append(hl, fmt.Sprintf("[%d,%d] task %d: %s -> %s", e.Call, e.Ret, ti, describeOp(e.In), e.Out.String()))
+		}
+	}
+	res.Extra = map[string]any{"scheduler_decisions_prefix": tr, "context_switches": s.Switches(), "yields": s.Steps(), "held_at": s.HeldSites(), "history": hl}
 	if os.Getenv("VSIM_VERBOSE") != "" {
 		res.Log = r.Log
 	}
